@@ -14,7 +14,7 @@ OPTS.verbosity = -3
 
 SRC = {
     "pkg": '"""Package."""\n',
-    "pkg.a": '"""Module a."""\nclass C:\n    """Class C, see L{m} and L{v}."""\n    v = 1\n    """Variable v."""\n    def m(self):\n        """Method m, see L{v}."""\n\nclass D(C):\n    """Class D."""\n    def m(self):\n        pass\n\nclass _P:\n    """Private by name."""\n',
+    "pkg.a": '"""Module a."""\nclass C:\n    """Class C, see L{m} and L{v}."""\n    v = 1\n    """Variable v."""\n    def m(self):\n        """Method m, see L{v}."""\n\nclass D(C, Exception):\n    """Class D, an exception class (its kind is EXCEPTION, not CLASS) with a member."""\n    def m(self):\n        pass\n\nclass _P:\n    """Private by name."""\n',
     "pkg.b": '"""Module b, see L{f} and L{X}."""\nfrom pkg.a import C\ndef f(x: C) -> C:\n    """Function f, see L{C} and L{pkg.a.D.m}."""\n\nX: C = None\n"""Variable X."""\n',
 }
 OBJECTS = ["pkg", "pkg.a", "pkg.a.C", "pkg.a.C.m", "pkg.a.C.v", "pkg.a.D", "pkg.a.D.m", "pkg.a._P", "pkg.b", "pkg.b.f", "pkg.b.X"]
